@@ -42,7 +42,7 @@ Record params := {
 Definition ZSTD_CONTENTSIZE_UNKNOWN : Z := 18446744073709551615.
 
 (* the values no theorem depends on (beyond 1 <= chunk): they may change in the source without
-   touching the proofs; today: eof guard absent, 65536, 3, 6, 31 *)
+   touching the proofs; today: eof guard and eof break present, 65536, 3, 6, 31 *)
 Record knobs := {
   k_eof : bool;       (* `if not do.eof: raise DecompressionError` present in _decompress_body_gzip *)
   k_eof_break : bool; (* `do.eof or` present in the break test of its loop *)
@@ -52,7 +52,7 @@ Record knobs := {
   k_wbits : Z         (* _GZIP_WBITS *)
 }.
 
-Definition today : knobs := {| k_eof := false; k_eof_break := false; k_chunk := 65536; k_zstd_level := 3; k_gzip_level := 6; k_wbits := 31 |}.
+Definition today : knobs := {| k_eof := true; k_eof_break := true; k_chunk := 65536; k_zstd_level := 3; k_gzip_level := 6; k_wbits := 31 |}.
 
 Definition std_params (K : knobs) : params := {|
   p_zstd_level := k_zstd_level K;
